@@ -332,6 +332,16 @@ def full_suite(C, M, tag, X, V, depth, lite2=False):
     derived.append(("*neg", lambda: X * q, q * V))
     derived.append(("/neg", lambda: X / q, V / q))
     derived.append(("neg", lambda: -X, -1 * V))
+    if isinstance(X, (M.DenseDefiniteMatrix, M.TriangularFactoredDefiniteMatrix)) and getattr(X, "_sign", None) == -1:
+        # a negative definite matrix (sign = -1 classes): its negative multiples are mathematically positive definite and must stay usable as such
+        for lab, mk in (("times-negative", lambda: X * q), ("divided-by-negative", lambda: X / q), ("negated", lambda: -X)):
+            try:
+                r = mk()
+                okpd = isinstance(r, M.PositiveDefiniteMatrix)
+                C.flag(tag + f"/negative-definite-{lab}-is-usable-as-positive-definite", okpd, f"{type(r).__name__} is not a PositiveDefiniteMatrix (no sqrt)",
+                       "negative scalar * negative definite matrix is positive definite: the result offers the positive definite interface (sqrt)")
+            except Exception as e:  # noqa: BLE001
+                C.flag(tag + f"/negative-definite-{lab}-is-usable-as-positive-definite", False, f"{type(e).__name__}: {e}")
     if isinstance(X, M.PositiveDefiniteMatrix):
         C.flag(tag + "/scaled-by-positive-stays-positive-definite", isinstance(p * X, M.PositiveDefiniteMatrix),
                f"{type(p * X).__name__} is not a PositiveDefiniteMatrix", "positive scalar * positive definite matrix stays usable as positive definite (has sqrt)")
